@@ -10,6 +10,10 @@ import (
 	"verif/refmodel"
 )
 
+// Note: slock releases a hold and wakes the queue in two critical sections, so a request that never queues
+// (timeout 0) may legitimately take the key in between ("barging"); the atomic reference cannot produce that
+// outcome. The oracle is therefore only attached to scenarios without such a newcomer (C02's request pairs).
+//
 // OracleLinearizable: for scenarios whose threads only issue requests at one instant (no sleeps, no sweeper
 // involvement): the replies of all requests and the holders / queue left at quiescence must equal the outcome of
 // SOME sequential order of the requests (per-thread order kept) on the RefLockDB reference. The set of all such
@@ -55,7 +59,7 @@ func OracleLinearizable(prefix string) Oracle {
 		}
 		var obs []string
 		for _, e := range r.Events {
-			if e.T == t0 {
+			if e.T >= t0 && e.T < t0+100*ms {
 				obs = append(obs, fmt.Sprintf("%s:r%d=%d", e.Client, e.Req, refusal(e.Result)))
 			}
 		}
